@@ -130,6 +130,7 @@ func describe(v reflect.Value) interopValue {
 }
 
 var errIface = reflect.TypeOf((*error)(nil)).Elem()
+var namedRCType = reflect.TypeOf((*runtime.NamedReadCloser)(nil)).Elem()
 
 func call(cli interface{}, r interopReq) (res interopRes) {
 	defer func() {
@@ -182,6 +183,14 @@ func call(cli interface{}, r interopReq) (res interopRes) {
 				res.SetErrors = map[string]string{}
 			}
 			res.SetErrors[k] = "no such field"
+			continue
+		}
+		if field.Type() == namedRCType {
+			var st struct {
+				Stream string ` + "`json:\"stream\"`" + `
+			}
+			_ = json.Unmarshal(raw, &st)
+			field.Set(reflect.ValueOf(runtime.NamedReader("upload.bin", strings.NewReader(st.Stream))))
 			continue
 		}
 		if err := json.Unmarshal(raw, field.Addr().Interface()); err != nil {
